@@ -130,3 +130,16 @@ Proof.
   repeat split; auto. intros [H|[H|[]]]; discriminate.
 Qed.
 Print Assumptions C09_block_copy_mode_refuted_K13.
+
+(* ... while the same framework in IN-PLACE mode keeps it (the blocks are not copied: the wrapper and its first block are the
+   objects they were, and the new library lists both) - K13 is specific to the per-block copies *)
+Example C09_block_inplace_mode_keeps_link :
+  match transform_block_mw deepcopy_exec true probe_identity ex_lib_heap 1 with
+  | Some (h', lib') =>
+      match attr_list h' lib' A_blocks with
+      | Some (_, [PRef b'; PRef w']) => getattr h' w' A_previous_block = Some (PRef b') /\ b' = 5%nat /\ w' = 10%nat
+      | _ => False
+      end
+  | None => False
+  end.
+Proof. vm_compute. repeat split. Qed.
